@@ -183,6 +183,14 @@ def evaluate(ctx, cases, label, size_cap=700):
             sh = 2 * np.pi * rng.integers(-2, 3, size=2)
             if np.max(np.abs(Hk(k + sh) - H)) > 1e-9:
                 res.violation("periodic", f"{tag}: H(k + {sh.tolist()}) differs from H(k) at k={k.tolist()}", case)
+        # ---------------- a result stays what it was: callers collect [Hk(k) for k in grid] and diagonalise afterwards
+        kA, kB = rng.uniform(-3, 3, size=2), rng.uniform(-3, 3, size=2)
+        HA = Hk_(kA)
+        HA0 = np.array(HA, copy=True)
+        HB = Hk_(kB)
+        if HB is HA or np.shares_memory(HA, HB) or not np.array_equal(HA, HA0):
+            res.violation("hk-result-changed-by-later-call", f"{tag}: the matrix returned for k={kA.tolist()} changed (or is the same array object) after the "
+                          f"generator was called again with k={kB.tolist()}: a list of H(k) over the momentum grid then holds the last matrix only", case)
         # ---------------- K: exact entries at w in {1,i,-1,-i}^2 (modulo the global convention k -> -k)
         mods = [parse_matrix(outs[bi * per + qi]["hk"], n, SJ) for qi in range(len(QUARTERS))]
         hamm = parse_matrix(outs[bi * per + len(QUARTERS)]["ham"], n, SJ)
